@@ -309,3 +309,15 @@ PROPS["C11"] = dict(
     level_text="Sampled pages; exact multiset oracle per extraction.",
     level_note="Trusted base: the page generator and its model in harness/src/wl/c11.rs and gen/rawpdf.rs. Reading-order quality and white space are out of scope.",
 )
+
+PROPS["C24"] = dict(
+    title="Embedded raster images decode to the pixels that were supplied",
+    level="exploration",
+    technique="round-trip monitor with an independent pixel model: PNG files come from the harness's own encoder, whose RGBA model is first confirmed against the png crate; each goes through Image::from_png_data, a page, the writer and the reader; the stored samples (own inflate, /ColorSpace, /BitsPerComponent, /SMask interpreted by the harness) are compared pixel by pixel with the model; the raw-buffer constructors are compared byte for byte with the supplied buffer",
+    stages=[rust()],
+    rule="colour type {0,2,3,4,6} x depth {1,2,4,8,16} (valid pairs) x Adam7 on/off x palettes of 1..2^depth entries x tRNS as palette alpha (full and shorter than the palette) and as colour key (present / absent in the image) x sizes 1x1..65x33 incl. widths not a multiple of 8 x every row filter (fixed and per-row mixed) x zlib levels 0/1/6/9 x IDAT split into 1-, 7-, 100-byte chunks x ancillary chunks; raw: from_raw_data (Gray/RGB/CMYK x bpc 1,2,4,8,16), from_rgba_data, from_gray_data; sampled writer configurations. Non-trivial: every case; distinct by PNG bytes",
+    assumptions=["colour management (gAMA, iCCP) is applied by neither side", "sources of <= 8 bits must match exactly after scaling by 255/(2^d-1); a 16-bit source stored at 8 bits is reported under its own signature and otherwise compared with a tolerance of one 8-bit step", "the colour of fully transparent pixels is compared too"],
+    floors={"quick": {"evaluations": 3000, "distinct": 2000, "counters": {"pixels_compared": 100000, "raw_images_compared": 400}}, "thorough": {"evaluations": 200000, "distinct": 120000}},
+    level_text="Sampled images over the full PNG feature lattice with an exact per-pixel oracle.",
+    level_note="Trusted base: gen/pnggen.rs (checked against the png crate on every case) and the sample unpacking in wl/c24.rs. JPEG and TIFF import are not driven (no independent decoder available offline).",
+)
